@@ -344,11 +344,14 @@ def _finish(mod, tier, seed, results, extra, extra_viol, errors, build_notes, t0
         "wall_s": round(time.time() - t0, 2),
         "violations": len(new_viol),
     }
-    os.makedirs(EVIDENCE_DIR, exist_ok=True)
-    tmp = os.path.join(EVIDENCE_DIR, ".%s.%d.tmp" % (pid, os.getpid()))
+    # evidence is only ever written for runs against the real repository; runs against a scratch
+    # copy (VERIF_REPO) leave their record under out/
+    evdir = EVIDENCE_DIR if build.repo_path() == "/repo" else os.path.join(core.OUT, "evidence-alt")
+    os.makedirs(evdir, exist_ok=True)
+    tmp = os.path.join(evdir, ".%s.%d.tmp" % (pid, os.getpid()))
     with open(tmp, "w") as f:
         json.dump(ev, f, indent=1, default=str)
-    os.replace(tmp, os.path.join(EVIDENCE_DIR, "%s.json" % pid))
+    os.replace(tmp, os.path.join(evdir, "%s.json" % pid))
 
     for l in lines:
         print(l)
